@@ -273,7 +273,12 @@ Inductive event :=
                                       live state and continues replaying the log from the snapshot's index *)
 | EvCHeartbeatSyncFail (n : nat)   (* a heartbeat round whose reply arrives but whose SyncPartitions proposal fails
                                       transiently (term change, timeout, read-only window): nothing is committed
-                                      and, because heartbeatLoop `continue`s, the cache is NOT refreshed *).
+                                      and, because heartbeatLoop `continue`s, the cache is NOT refreshed *)
+| EvCMonitorCommitFail (n : nat).  (* a partition-monitor round in which the master assigns a partition, the reply ARRIVES,
+                                      and the AddPartition proposal fails transiently (term change between receive and
+                                      commit, leadership loss, timeout, read-only window): partitionMonitorLoop
+                                      `continue`s, so neither the durable set nor the cache change - the same world
+                                      as after a lost reply; the assignment exists only at the master *)
 
 (* ---------- replica events ---------- *)
 Definition ev_catchup (w : world) (j k : nat) : world :=
@@ -515,6 +520,7 @@ Definition step (w : world) (e : event) : world :=
   | EvSnapTake => ev_snap_take w
   | EvSnapInstall j => ev_snap_install w j
   | EvCHeartbeatSyncFail n => fst (c_heartbeat_syncfail w n)
+  | EvCMonitorCommitFail n => fst (c_monitor w n true)
   end.
 
 Definition run_from (w : world) (evs : list event) : world := fold_left step evs w.
@@ -613,6 +619,7 @@ Definition decode (op : list Z) : option event :=
   | [28; n] => Some (EvCRestart (zn n))
   | [29] => Some EvCDump
   | [30; n] => Some (EvCHeartbeatSyncFail (zn n))
+  | [31; n] => Some (EvCMonitorCommitFail (zn n))
   | _ => None
   end%Z.
 
@@ -656,6 +663,11 @@ Definition observe (w : world) (e : event) : list Z :=
       match snd (c_heartbeat_syncfail w n) with
       | Some (Some ps) => (if w_fatal w' then 2%Z else 1%Z) :: enc_list ps ++ enc_list (c_parts (w_cur w'))
       | Some None => [0%Z]
+      | None => [(-2)%Z]
+      end
+  | EvCMonitorCommitFail n =>
+      match snd (c_monitor w n true) with
+      | Some (r, ok) => enc_res r ++ [if ok then 1%Z else 0%Z] ++ enc_list (c_parts (w_cur w'))
       | None => [(-2)%Z]
       end
   | EvCMonitor n lost =>
